@@ -12,7 +12,7 @@ static Out runWorld(bool finalize, int ctxBlock, int ctxVbk, int reuseVbk, int m
   RealWorld& w = newRealWorld();
   w.ap.mMaxReorgBlocks = maxReorg; w.ap.mPreserveBlocksBehindFinal = preserve; w.ap.mEndorsementSettlementInterval = preserve < maxReorg - 1 ? preserve : maxReorg - 1;   // parameter constraints asserted by the getters
   AltBlockTree& t = *w.alt;
-  mineVbk(w, 1); mineVbk(w, 2);                         // VBK 2, 3
+  mineVbk(w, 1); mineVbk(w, 2); mineVbk(w, 3);          // VBK 2, 3, 4
   for (int h = 1; h <= LCH; h++) addAltHeader(w, (uint8_t)(1 + h), (uint8_t)h);
   for (int h = 1; h <= LCH; h++) {
     PopData pd;
@@ -20,6 +20,10 @@ static Out runWorld(bool finalize, int ctxBlock, int ctxVbk, int reuseVbk, int m
     if (h == ctxBlock && ctxVbk == 3) pd.context.push_back(w.vbkById[3]);
     t.acceptBlock(altHash((uint8_t)(1 + h)), pd);
   }
+  // a side block that forks off early, is never activated and carries a payload of its own: finalization prunes it
+  const uint8_t sid = (uint8_t)(3 + LCH);
+  addAltHeader(w, sid, 2);
+  { PopData sp; sp.context.push_back(w.vbkById[4]); t.acceptBlock(altHash(sid), sp); }
   ValidationState st;
   bool ok = t.setState(altHash((uint8_t)(1 + LCH)), st);
   verif_check(ok, 1);
@@ -42,6 +46,9 @@ static Out runWorld(bool finalize, int ctxBlock, int ctxVbk, int reuseVbk, int m
   o.activated = ni->isValid() ? t.setState(*ni, s2) : false;
   o.tipId = t.getBestChain().tip()->getHash()[0];
   o.altBlocks = t.getBlocks().size();
+  // the payload index never names a block that no longer exists (pruned side blocks take their entries with them)
+  for (auto& kv : t.getPayloadsIndex().getAll()) for (auto& h : kv.second) verif_check(t.getBlockIndex(h) != nullptr, 7);
+  if (t.getBlockIndex(altHash(sid)) == nullptr) { verif_check(t.getPayloadsIndex().find(w.vbkById[4].getId().asVector()).empty(), 8); verif_cover(4); }
   // the final block is on the active chain
   for (auto* b : t.getBlocks()) if (b->finalized) verif_check(t.getBestChain().contains(b), 2);
   return o;
